@@ -120,6 +120,7 @@ PROP_BOUNDED = {
     'C05': 'harness/c05_bounded.py',
     'C06': 'harness/c06_bounded.py',
     'C08': 'harness/c08_bounded.py',
+    'C09': 'harness/c09_drain.py',
     'C10': 'harness/bp_scenarios.py --prop C10',
     'C11': 'harness/bp_scenarios.py --prop C11',
     'C12': 'harness/bp_scenarios.py --prop C12',
